@@ -5,38 +5,93 @@ General facts about the lockset check (for every table, not only the generated o
 namespace Rare.Lockset
 open Rare.Gen.Access
 
+theorem sameLoc_iff (a b : Acc) : sameLoc a b = true ↔
+    a.obj = b.obj ∧ (a.obj = "var" → a.field = b.field) ∧ (a.obj ≠ "var" → a.region = b.region) := by
+  unfold sameLoc
+  by_cases hv : a.obj = "var"
+  · simp [hv]
+  · simp [hv]
+
+theorem sameLoc_symm (a b : Acc) : sameLoc a b = sameLoc b a := by
+  rw [Bool.eq_iff_iff, sameLoc_iff, sameLoc_iff]
+  constructor
+  · rintro ⟨h1, h2, h3⟩
+    exact ⟨h1.symm, fun h => (h2 (h1 ▸ h)).symm, fun h => (h3 (h1 ▸ h)).symm⟩
+  · rintro ⟨h1, h2, h3⟩
+    exact ⟨h1.symm, fun h => (h2 (h1 ▸ h)).symm, fun h => (h3 (h1 ▸ h)).symm⟩
+
+theorem locked_symm (a b : Acc) : locked a b = locked b a := by
+  unfold locked
+  rw [Bool.beq_comm (a := a.mutex), Bool.or_comm (a.lock == "W")]
+  cases (a.lock != "") <;> cases (b.lock != "") <;> simp
+
+theorem ordered_symm (a b : Acc) : ordered a b = ordered b a := by
+  unfold ordered; rw [Bool.or_comm]
+
+theorem safePair_symm (a b : Acc) : safePair a b = safePair b a := by
+  unfold safePair; rw [locked_symm, ordered_symm, Bool.and_comm]
+
+theorem conflict_symm (a b : Acc) : conflict a b = conflict b a := by
+  unfold conflict; rw [sameLoc_symm, Bool.or_comm]
+
+/-- Pairing every write with every access is the same as looking at all conflicting pairs. -/
+theorem pairsSafe_iff (s : List Acc) :
+    pairsSafe s = true ↔ ∀ a ∈ s, ∀ b ∈ s, conflict a b = true → safePair a b = true := by
+  simp only [pairsSafe, List.all_eq_true, List.mem_filter, Bool.or_eq_true, Bool.not_eq_true']
+  constructor
+  · intro h a ha b hb hc
+    simp only [conflict, Bool.and_eq_true, Bool.or_eq_true] at hc
+    obtain ⟨hl, hw⟩ := hc
+    rcases hw with hw | hw
+    · rcases h a ⟨ha, hw⟩ b hb with h' | h'
+      · rw [hl] at h'; cases h'
+      · exact h'
+    · rcases h b ⟨hb, hw⟩ a ha with h' | h'
+      · rw [sameLoc_symm, hl] at h'; cases h'
+      · rw [safePair_symm]; exact h'
+  · intro h a ha b hb
+    cases hl : sameLoc a b
+    · exact Or.inl rfl
+    · exact Or.inr (h a ha.1 b hb (by simp [conflict, hl, ha.2]))
+
 /-- `raceFree` is exactly: every conflicting pair of accesses made while the object is shared is safe. -/
 theorem raceFree_iff (cs : List String) (accs : List Acc) :
     raceFree cs accs = true ↔
-      ∀ a ∈ shared cs accs, ∀ b ∈ shared cs accs, conflict a b = true → safePair a b = true := by
-  simp only [raceFree, List.all_eq_true, Bool.or_eq_true, Bool.not_eq_true']
-  constructor
-  · intro h a ha b hb hc
-    rcases h a ha b hb with h' | h'
-    · rw [hc] at h'; cases h'
-    · exact h'
-  · intro h a ha b hb
-    cases hc : conflict a b
-    · exact Or.inl rfl
-    · exact Or.inr (h a ha b hb hc)
+      ∀ a ∈ shared cs accs, ∀ b ∈ shared cs accs, conflict a b = true → safePair a b = true :=
+  pairsSafe_iff _
+
+/-- Closure tables: every conflicting pair of accesses made by the captured-variable literals is safe. -/
+theorem raceFreeClosures_iff (accs : List Acc) :
+    raceFreeClosures accs = true ↔
+      ∀ a ∈ accs, a.depth ≠ 0 → ∀ b ∈ accs, b.depth ≠ 0 → conflict a b = true → safePair a b = true := by
+  unfold raceFreeClosures
+  rw [pairsSafe_iff]
+  simp only [List.mem_filter, bne_iff_ne, ne_eq, and_imp]
 
 /-- Role tables: every conflicting pair of accesses of two different roles is safe. -/
 theorem raceFreeRoles_iff (accs : List Acc) :
     raceFreeRoles accs = true ↔
       ∀ a ∈ accs, ∀ b ∈ accs, a.fn ≠ b.fn → conflict a b = true → safePair a b = true := by
-  simp only [raceFreeRoles, List.all_eq_true, Bool.or_eq_true, Bool.not_eq_true', beq_iff_eq]
+  simp only [raceFreeRoles, List.all_eq_true, List.mem_filter, Bool.or_eq_true, Bool.not_eq_true', beq_iff_eq]
   constructor
   · intro h a ha b hb hne hc
-    rcases h a ha b hb with (h' | h') | h'
-    · exact absurd h' hne
-    · rw [hc] at h'; cases h'
-    · exact h'
+    simp only [conflict, Bool.and_eq_true, Bool.or_eq_true] at hc
+    obtain ⟨hl, hw⟩ := hc
+    rcases hw with hw | hw
+    · rcases h a ⟨ha, hw⟩ b hb with (h' | h') | h'
+      · exact absurd h' hne
+      · rw [hl] at h'; cases h'
+      · exact h'
+    · rcases h b ⟨hb, hw⟩ a ha with (h' | h') | h'
+      · exact absurd h'.symm hne
+      · rw [sameLoc_symm, hl] at h'; cases h'
+      · rw [safePair_symm]; exact h'
   · intro h a ha b hb
     by_cases hfn : a.fn = b.fn
     · exact Or.inl (Or.inl hfn)
-    · cases hc : conflict a b
+    · cases hl : sameLoc a b
       · exact Or.inl (Or.inr rfl)
-      · exact Or.inr (h a ha b hb hfn hc)
+      · exact Or.inr (h a ha.1 b hb hfn (by simp [conflict, hl, ha.2]))
 
 /-- A safe pair is ordered by one of the three mechanisms. -/
 theorem safePair_cases {a b : Acc} (h : safePair a b = true) :
